@@ -10,6 +10,7 @@ import (
 	"fmt"
 	"math/rand"
 	"os"
+	"path/filepath"
 	"strings"
 	"time"
 
@@ -34,6 +35,7 @@ var distKinds = []string{
 	"close-open-same-object", "restart-new-object", "ipc-stop-start",
 	"meta-deleted-offline", "reset-offline", "reset-at-runtime", "auto-recover-missing-l0",
 	"app-closes-last-connection", "db-replaced-older", "db-replaced-newer",
+	"data-dir-rolled-back",
 }
 
 // offline activity shapes
@@ -443,6 +445,8 @@ func (w *world) disturb(kind string) error {
 		return w.restartNewObject()
 	case "db-replaced-older", "db-replaced-newer":
 		return w.replaceDB(kind)
+	case "data-dir-rolled-back":
+		return w.rollbackDataDir()
 	}
 	return fmt.Errorf("unknown disturbance %s", kind)
 }
@@ -507,6 +511,108 @@ func (w *world) replaceDB(kind string) error {
 	}
 	w.offCommits++ // the replacement itself changes what the source is
 	return w.restartNewObject()
+}
+
+// rollbackDataDir models a volume / VM snapshot rollback: database, WAL and
+// litestream's meta directory are all put back to an earlier consistent copy
+// (taken with everything stopped) after replication had moved on.
+func (w *world) rollbackDataDir() error {
+	ctx := context.Background()
+	if err := w.closeLS(); err != nil {
+		return fmt.Errorf("close: %w", err)
+	}
+	w.CloseApp()
+	snap := filepath.Join(w.Dir, fmt.Sprintf("voldump-%d", len(w.shapes)))
+	if err := os.MkdirAll(snap, 0o755); err != nil {
+		return err
+	}
+	meta := w.LS.MetaPath()
+	if err := sq.CopyFile(w.DBPath, filepath.Join(snap, "db")); err != nil {
+		return err
+	}
+	walKept := sq.CopyFile(w.DBPath+"-wal", filepath.Join(snap, "db-wal")) == nil
+	if err := copyTree(meta, filepath.Join(snap, "meta")); err != nil {
+		return err
+	}
+	kSnap := w.K
+	// replication moves on
+	if err := w.OpenApp(); err != nil {
+		return err
+	}
+	if err := w.restartNewObject(); err != nil {
+		return err
+	}
+	for i := 0; i < 2+w.rng.Intn(4); i++ {
+		if _, err := w.writeTable("t0"); err != nil {
+			return err
+		}
+		if w.rng.Intn(2) == 0 {
+			_ = w.LS.SyncAndWait(ctx)
+		}
+	}
+	if w.ackCheck("before rollback", 0) {
+		return nil
+	}
+	// stop everything and roll the data directory back
+	if err := w.closeLS(); err != nil {
+		return fmt.Errorf("close: %w", err)
+	}
+	w.CloseApp()
+	os.Remove(w.DBPath + "-wal")
+	os.Remove(w.DBPath + "-shm")
+	if err := sq.CopyFile(filepath.Join(snap, "db"), w.DBPath); err != nil {
+		return err
+	}
+	if walKept {
+		if err := sq.CopyFile(filepath.Join(snap, "db-wal"), w.DBPath+"-wal"); err != nil {
+			return err
+		}
+	}
+	if err := os.RemoveAll(meta); err != nil {
+		return err
+	}
+	if err := copyTree(filepath.Join(snap, "meta"), meta); err != nil {
+		return err
+	}
+	w.K = kSnap
+	w.Logf("data directory rolled back to the copy taken at k=%d (db, wal=%v, meta dir)", kSnap, walKept)
+	if err := w.OpenApp(); err != nil {
+		return err
+	}
+	if err := w.Record(); err != nil {
+		return err
+	}
+	w.offCommits++
+	if err := w.restartNewObject(); err != nil {
+		return err
+	}
+	for i := 0; i < 1+w.rng.Intn(3); i++ {
+		ok, err := w.writeTable("t2")
+		if err != nil {
+			return err
+		}
+		if ok {
+			w.offCommits++
+		}
+	}
+	return nil
+}
+
+func copyTree(src, dst string) error {
+	return filepath.Walk(src, func(p string, fi os.FileInfo, err error) error {
+		if err != nil {
+			if os.IsNotExist(err) {
+				return nil
+			}
+			return err
+		}
+		rel, _ := filepath.Rel(src, p)
+		t := filepath.Join(dst, rel)
+		if fi.IsDir() {
+			return os.MkdirAll(t, 0o755)
+		}
+		return sq.CopyFile(p, t)
+	})
 }
 
 func runCase(run *vf.Run, raw json.RawMessage, dir string) *vf.Result {
